@@ -84,4 +84,10 @@ def replay(obligation, witness):
     return {"confirmed": r["violated"], "scenario": r}
 
 
-NATIVE = [("native:two-connections-then-both-close", _nat)]
+def _nat2():
+    import contracts.agg_native as n
+    r = n.scenario_user_on_two_units()
+    return {"ok": not r["violated"], "observation": r}
+
+
+NATIVE = [("native:two-connections-then-both-close", _nat), ("native:user-on-two-units", _nat2)]
